@@ -161,7 +161,8 @@ def hdr_ok(blob, address, length, code):
 
 
 @contract("spsdk.sbfile.sb31.commands:BaseCmd.export")
-def _(self: SubObj(BaseCmd, _address=U32, _length=U32, cmd_tag=OneOf(EnumCmdTag.ERASE, EnumCmdTag.LOAD, EnumCmdTag.EXECUTE, EnumCmdTag.COPY, EnumCmdTag.FILL_MEMORY))) -> bytes:
+def _(self: SubObj(BaseCmd, _address=U32, _length=U32, cmd_tag=OneOf(EnumCmdTag.ERASE, EnumCmdTag.LOAD, EnumCmdTag.EXECUTE, EnumCmdTag.COPY, EnumCmdTag.FILL_MEMORY, EnumCmdTag.PROGRAM_FUSES,
+                                                                                       EnumCmdTag.PROGRAM_IFR))) -> bytes:
     ensures(len(result) == 16 and hdr_ok(result, self._address, self._length, self.cmd_tag.tag), label="tag-address-length-code")
     pure()
 
@@ -190,15 +191,43 @@ def _(self: Obj(CmdFillMemory, _address=U32, _length=U32, cmd_tag=Const(EnumCmdT
     sample_with(lambda rnd: {"self": CmdFillMemory(rnd.getrandbits(32), rnd.getrandbits(32), rnd.getrandbits(32))})
 
 
+from spsdk.sbfile.sb31.commands import CmdProgFuses, CmdProgIfr  # noqa: E402
+
+
+def LOADER(cls, tag, has_memory_block):
+    return Obj(cls, _address=U32, _length=U32, cmd_tag=Const(tag), memory_id=U32, data=Bytes(lo=0, hi=4096), HAS_MEMORY_ID_BLOCK=Const(has_memory_block))
+
+
+def _mk_loader(rnd):
+    kind = rnd.randrange(3)
+    if kind == 0:
+        return CmdLoad(rnd.getrandbits(32), bytes(rnd.getrandbits(8) for _ in range(rnd.choice([0, 1, 15, 16, 17, 100]))), rnd.getrandbits(4))
+    if kind == 1:
+        return CmdProgFuses(rnd.getrandbits(32), bytes(rnd.getrandbits(8) for _ in range(4 * rnd.choice([1, 2, 3, 4, 5, 8]))))
+    return CmdProgIfr(rnd.getrandbits(32), bytes(rnd.getrandbits(8) for _ in range(rnd.choice([4, 16, 20, 512]))))
+
+
 @contract("spsdk.sbfile.sb31.commands:CmdLoadBase.export")
-def _(self: Obj(CmdLoad, _address=U32, _length=U32, cmd_tag=Const(EnumCmdTag.LOAD), memory_id=U32, data=Bytes(lo=0, hi=4096), HAS_MEMORY_ID_BLOCK=Const(True))) -> bytes:
-    requires(self._length == len(self.data))
-    let(n=len(self.data))
-    ensures(len(result) == 32 + (n + 15) // 16 * 16, label="header-memory-block-data-padded-to-16")
-    ensures(hdr_ok(result, self._address, n, EnumCmdTag.LOAD.tag) and words(result, 16, 4) == (self.memory_id, 0, 0, 0), label="load-address-length-memory")
-    ensures(result[32: 32 + n] == self.data and forall(32 + n, len(result), lambda k: result[k] == 0), label="data-as-given-then-zero-padding")
+def _(self: Union[LOADER(CmdLoad, EnumCmdTag.LOAD, True), LOADER(CmdProgFuses, EnumCmdTag.PROGRAM_FUSES, False), LOADER(CmdProgIfr, EnumCmdTag.PROGRAM_IFR, False)]) -> bytes:
+    # the length word counts bytes, for PROGRAM_FUSES it counts 32-bit fuse words (CmdProgFuses.__init__); the payload is always the whole data
+    requires(self._length == (len(self.data) // 4 if typed(self, CmdProgFuses) else len(self.data)))
+    let(n=len(self.data), h=32 if self.HAS_MEMORY_ID_BLOCK else 16)
+    ensures(len(result) == h + (n + 15) // 16 * 16, label="header-memory-block-data-padded-to-16")
+    ensures(hdr_ok(result, self._address, self._length, self.cmd_tag.tag), label="load-address-length-code")
+    ensures(implies(self.HAS_MEMORY_ID_BLOCK, words(result, 16, 4) == (self.memory_id, 0, 0, 0)), label="memory-block-only-for-commands-that-have-one")
+    ensures(result[h: h + n] == self.data and forall(h + n, len(result), lambda k: result[k] == 0), label="data-as-given-then-zero-padding")
     pure()
-    sample_with(lambda rnd: {"self": CmdLoad(rnd.getrandbits(32), bytes(rnd.getrandbits(8) for _ in range(rnd.choice([0, 1, 15, 16, 17, 100]))), rnd.getrandbits(4))})
+    sample_with(lambda rnd: {"self": _mk_loader(rnd)})
+
+
+inline("spsdk.sbfile.sb31.commands:CmdProgFuses.__init__", "spsdk.sbfile.sb31.commands:CmdLoadBase.__init__", "spsdk.sbfile.sb31.commands:BaseCmd.__init__",
+       "spsdk.sbfile.sb31.commands:CmdProgFuses.parse", "spsdk.sbfile.sb31.commands:CmdProgFuses._extract_data")
+
+
+@lemma("program-fuses-parse-inverts-export")
+def _(address: U32, data: Union[Bytes(4), Bytes(8), Bytes(12), Bytes(20), Bytes(64)]):
+    let(back=CmdProgFuses.parse(CmdProgFuses(address, data).export()))
+    ensures(back.address == address and back.data == data and back.length == len(data) // 4, label="fuse-address-and-every-fuse-word-come-back")
 
 
 @contract("spsdk.sbfile.sb31.commands:CmdLoadKeyBlob.export")
